@@ -1,7 +1,7 @@
 //! C17 — each remote call gets its own reply; nothing is left behind afterwards.
 
 use crate::engine::{fp, replay_entry, CaseInfo, ReplayEntry, Run, Verdict};
-use crate::netbed::{advance, clear_schedule, drain, install_schedule, library_panics_since, node_with_peer, panic_mark, parse_pass_through, run_case, BedErr};
+use crate::netbed::{advance, clear_schedule, connect_node_named, drain, install_schedule, library_panics_since, node_with_peer, panic_mark, parse_pass_through, run_case, BedErr};
 use crate::nodebed::{send_frame, wait_until};
 use crate::terms::denote;
 use erltf::OwnedTerm;
@@ -48,6 +48,10 @@ pub struct Case {
     /// (2^20 allocations) later: the new calls get the identifiers of the first wave's calls with the next serial
     #[serde(default)]
     pub reuse_ids: bool,
+    /// a second peer is connected and closes its stream while the calls of the last wave (all to the first peer) are
+    /// outstanding
+    #[serde(default)]
+    pub second_peer_closes: bool,
 }
 
 #[derive(Debug)]
@@ -108,6 +112,7 @@ fn run_net(c: &Case) -> Result<Result<NetOut, String>, BedErr> {
     run_case(Duration::from_secs(60), move |bed| async move {
         let (node, p) = node_with_peer(&bed, u64::MAX).await?;
         let mut p = Some(p);
+        let mut second = if c.second_peer_closes { Some(connect_node_named(&bed, &node, "other", u64::MAX, &[]).await?) } else { None };
         let local = tokio::task::LocalSet::new();
         let switched = install_schedule(c.schedule.clone());
         let outcomes: Rc<RefCell<Vec<CallOutcome>>> = Rc::new(RefCell::new(vec![]));
@@ -169,6 +174,16 @@ fn run_net(c: &Case) -> Result<Result<NetOut, String>, BedErr> {
                             match parse_request(&f) {
                                 Ok(r) => reqs.push(r),
                                 Err(e) => problems.push(("request-malformed".into(), e)),
+                            }
+                        }
+                        // the requests of this wave are outstanding at the first peer: now the *other* peer goes away
+                        if w + 1 == n_waves {
+                            if let Some(other) = second.take() {
+                                other.close_gracefully();
+                                let n2 = node.clone();
+                                if !wait_until(Duration::from_secs(5), || !n2.connections().contains_key("other@127.0.0.1")).await {
+                                    problems.push(("connection-not-deregistered".into(), "the second peer closed its stream but stays registered".into()));
+                                }
                             }
                         }
                         for (pid, lw, li) in late.drain(..) {
@@ -311,6 +326,12 @@ pub fn oracle(c: &Case) -> Verdict {
                     return Verdict::Fail { signature: "unexpected-call-error".into(), detail: format!("call (wave {}, #{}): {e}", o.wave, o.idx) };
                 }
                 let last_wave_fault = c.fault != 0 && o.wave + 1 == c.waves.len();
+                if c.second_peer_closes && c.fault == 0 && !call.unknown_node && e.contains("RPC cancelled") {
+                    return Verdict::Fail {
+                        signature: "call-cancelled-although-its-peer-is-connected".into(),
+                        detail: format!("call (wave {}, #{}) to the first peer was cancelled when another peer closed its connection", o.wave, o.idx),
+                    };
+                }
                 if o.expect_reply_in_time && !last_wave_fault && e.contains("RPC timeout") {
                     return Verdict::Fail {
                         signature: "reply-sent-in-time-but-call-timed-out".into(),
@@ -334,6 +355,7 @@ pub fn oracle(c: &Case) -> Verdict {
             .class_if(c.waves.len() >= 2, "late-replies-into-next-wave")
             .class_if(c.waves.len() >= 2 && c.reuse_ids, "caller-ids-reused-after-a-round")
             .class_if(c.fault != 0, "peer-closes")
+            .class_if(c.second_peer_closes, "another-peer-closes-meanwhile")
             .class_if(out.switched > 0, "schedule-yields"),
     )
 }
@@ -341,8 +363,8 @@ pub fn oracle(c: &Case) -> Verdict {
 fn strategy() -> impl Strategy<Value = Case> {
     let reply = prop_oneof![4 => Just(Reply::Now), 3 => (0u8..8).prop_map(Reply::After), 2 => Just(Reply::Never), 1 => Just(Reply::Twice), 2 => Just(Reply::NowAndLate)];
     let call = (any::<u8>(), reply, prop::bool::weighted(0.08)).prop_map(|(timeout_s, reply, unknown_node)| Call { timeout_s, reply, unknown_node });
-    (prop::collection::vec(prop::collection::vec(call, 1..7), 1..4), prop::collection::vec(any::<u8>(), 0..6), prop::collection::vec(any::<u8>(), 0..30), 0u8..3, prop_oneof![6 => Just(0u8), 1 => Just(1u8), 1 => Just(2u8), 2 => Just(3u8)], prop::bool::weighted(0.35))
-        .prop_map(|(waves, perm, schedule, stray, fault, reuse_ids)| Case { waves, perm, schedule, stray, fault, reuse_ids })
+    (prop::collection::vec(prop::collection::vec(call, 1..7), 1..4), prop::collection::vec(any::<u8>(), 0..6), prop::collection::vec(any::<u8>(), 0..30), 0u8..3, prop_oneof![6 => Just(0u8), 1 => Just(1u8), 1 => Just(2u8), 2 => Just(3u8)], prop::bool::weighted(0.35), prop::bool::weighted(0.25))
+        .prop_map(|(waves, perm, schedule, stray, fault, reuse_ids, second_peer_closes)| Case { waves, perm, schedule, stray, fault, reuse_ids, second_peer_closes })
 }
 
 // ---- a large request to a peer that is not reading: the call's own timeout must not tear the frame -----------------------
